@@ -329,6 +329,10 @@ def r5_encodings(r, facts):
         r.require(off is not None and any(x[0] == 'arg' and x[1] == 1 for x in subexprs(off)) and not any(x[0] == 'bin' for x in subexprs(off)), 'close_direct_fd/offset', 'files_update.offset is not the descriptor index itself: %s' % (off,), d.where(loc))
         fds = fl.get('fds')
         vals = [x[4] for x in subexprs(fds) if x[0] == 'const' and len(x) > 4 and x[4] is not None] if fds is not None else []
+        # a promoted `&[-1]` (bytes from the facts) or a local array `[-1]` whose address is taken
+        arrs = [x for x in subexprs(fds) if x[0] == 'agg' and x[1] == 'array'] if fds is not None else []
+        if not vals and len(arrs) == 1 and len(arrs[0][3]) == 1 and arrs[0][3][0][0] == 'const' and arrs[0][3][0][1] == -1 and (arrs[0][3][0][3] or '') == 'i32':
+            vals = [(255, 255, 255, 255)]
         r.require(vals == [(255, 255, 255, 255)], 'close_direct_fd/value', 'the update value is not a single -1 (unregister): %s bytes=%s' % (fds, vals), d.where(loc))
     regs = [(loc, t) for loc, t in d.calls() if (t.get('callee') or '') == 'io_uring::Shared::register']
     if r.require(len(regs) == 1, 'close_direct_fd/register', 'register call not found', d.where()):
@@ -412,8 +416,20 @@ def r7_stdio(r, facts):
         dest = t['dest']['l']
         wrapped = False
         for l2, t2 in g.calls():
-            if (t2.get('callee') or '') == 'std::mem::ManuallyDrop::<T>::new' and is_local(t2['args'][0], dest):
-                wrapped = g.dominates(loc, l2)
+            if (t2.get('callee') or '') == 'std::mem::ManuallyDrop::<T>::new' and 'l' in t2['args'][0] and not t2['args'][0]['p']:
+                # the value wrapped is the one from_raw returned (directly or through `let fd = ..;` copies), and no path
+                # from from_raw to a return avoids the wrapping
+                a = t2['args'][0]['l']
+                seen_l = set()
+                while a != dest and a not in seen_l:
+                    seen_l.add(a)
+                    d_ = g.single_def(a)
+                    if d_ and d_[1] == 'assign' and d_[2]['k'] == 'use' and 'l' in d_[2]['op'] and not d_[2]['op']['p']:
+                        a = d_[2]['op']['l']
+                    else:
+                        break
+                if a == dest and t['target'] is not None:
+                    wrapped = g.dominates(loc, l2) and g.forward_paths_hit([Loc(t['target'], 0)], g.returns(), blockers=[l2]) is None
         r.require(wrapped, 'stdio:%s' % g.path, 'an AsyncFd for a standard stream is not wrapped in ManuallyDrop: dropping it closes fd %s' % (e,), g.where(loc))
     for name in ('io::Stdin', 'io::Stdout', 'io::Stderr'):
         a = facts.adt(name)
